@@ -435,6 +435,14 @@ func runSeq(c *rig.Ctx, cs Case, record bool) runResult {
 		switch r := observations[i].Reply.(type) {
 		case setReply:
 			noteSet(res.features, op.Cur, r.Accept, r.Latest, r.Err)
+			// the repaired branch: a report that does not raise the count while the total is above the limit
+			if i > 0 && op.Cur >= 0 && r.Err == "" && !r.Accept && r.Latest == op.Cur {
+				for _, f := range observations[i].Snap {
+					if f.Name == op.FC && f.T == "mif" && f.Count > f.Max {
+						res.features["applied-while-over-lowered-limit"] = true
+					}
+				}
+			}
 		case []acqReply:
 			for k, a := range r {
 				if a.Err != "" {
